@@ -374,11 +374,23 @@ def model_literals(model) -> list[float]:
     return res
 
 
+def _default_value(e) -> float:
+    try:
+        return float(refsem.const_value(e).val)
+    except refsem.RefError:
+        # outside the range the reference handles (1e-300, 1e300 ...): the literal itself
+        if e[0] == "num":
+            return float(e[1])
+        if e[0] == "neg" and e[1][0] == "num":
+            return -float(e[1][1])
+        return 1.0
+
+
 def default_point(model) -> dict:
     return {
         "t": 0.0,
-        "states": {s["name"]: float(refsem.const_value(s["value"]).val) for s in model["states"]},
-        "params": {p["name"]: float(refsem.const_value(p["value"]).val) for p in model["params"]},
+        "states": {s["name"]: _default_value(s["value"]) for s in model["states"]},
+        "params": {p["name"]: _default_value(p["value"]) for p in model["params"]},
     }
 
 
